@@ -70,8 +70,18 @@ def ser_indirect(num, gen, o):
     if isinstance(o, Stream):
         d = dict(o.dict)
         d[b"Length"] = len(o.raw)
-        return b"%d %d obj\n" % (num, gen) + ser(d) + b"\nstream\n" + o.raw + b"\nendstream\nendobj\n"
-    return b"%d %d obj\n" % (num, gen) + ser(o) + b"\nendobj\n"
+        return _header(num, gen) + ser(d) + b"\nstream\n" + o.raw + b"\nendstream\nendobj\n"
+    return _header(num, gen) + ser(o) + b"\nendobj\n"
+
+
+def _header(num, gen):
+    """'N G obj' with the white space real producers use: mostly single spaces, every seventh object a TAB
+    between the numbers, every eleventh two spaces (any PDF white space separates tokens)"""
+    if num % 7 == 3:
+        return b"%d\t%d obj\n" % (num, gen)
+    if num % 11 == 5:
+        return b"%d  %d obj\n" % (num, gen)
+    return b"%d %d obj\n" % (num, gen)
 
 
 class Writer:
